@@ -291,7 +291,7 @@ def _parseRequestLine(line: bytes) -> tuple[bytes, bytes, bytes]:
         raise ValueError("Invalid method")
 
     for c in request:
-        if c <= 32 or c > 176:
+        if c <= 32 or c > 0o176:
             raise ValueError("Invalid request-target")
     if request == b"":
         raise ValueError("Empty request-target")
